@@ -17,6 +17,7 @@ from __future__ import annotations
 import itertools
 import json
 import sys
+import traceback
 from collections import OrderedDict
 
 import numpy as np
@@ -33,6 +34,7 @@ from agilerl.modules.cnn import EvolvableCNN
 from agilerl.modules.custom_components import NoisyLinear
 
 OFFSET = 10 ** 10
+CARRY_FRAMES = ("preserve_parameters", "shrink_preserve_parameters", "load_state_dict", "copy_")
 torch.set_num_threads(1)      # tiny tensors: threading only costs (and the machine is shared)
 
 
@@ -281,17 +283,33 @@ class C04(vlib.Driver):
             p_b, b_b = snap(m), snap_buffers(m)
             rec = {"op": op[0]}
             if op[0] == "mut":
-                ret = getattr(m, op[1])(**op[2])
+                try:
+                    ret = getattr(m, op[1])(**op[2])
+                except Exception as e:
+                    # a mutation method that fails to produce a valid architecture is property C03's business;
+                    # a failure while carrying the weights over is ours
+                    frames = [f.name for f in traceback.extract_tb(e.__traceback__)]
+                    rec["raised"] = f"{type(e).__name__}: {str(e)[:200]}"
+                    rec["raised_in"] = [f for f in frames if f in CARRY_FRAMES]
+                    obs["steps"].append(rec)
+                    break
                 rec["ret"] = str(ret)
                 rec["applied"] = str(m.last_mutation_attr)
-            elif op[0] == "recreate":
-                m.recreate_network()
-            elif op[0] == "clone":
-                m = m.clone()
-            elif op[0] == "reinit":
-                if mut is None:
-                    mut = Mutations(0, 1, 0.5, 0, 0, 0)
-                m = mut.reinit_from_mutated(m)
+            elif op[0] in ("recreate", "clone", "reinit"):
+                try:
+                    if op[0] == "recreate":
+                        m.recreate_network()
+                    elif op[0] == "clone":
+                        m = m.clone()
+                    else:
+                        if mut is None:
+                            mut = Mutations(0, 1, 0.5, 0, 0, 0)
+                        m = mut.reinit_from_mutated(m)
+                except Exception as e:
+                    rec["raised"] = f"{type(e).__name__}: {str(e)[:200]}"
+                    rec["raised_in"] = [op[0]]
+                    obs["steps"].append(rec)
+                    break
             elif op[0] == "rand":
                 randomise(m, 5000 + case["seed"] * 131 + oi)
             elif op[0] == "train":
@@ -333,6 +351,8 @@ class C04(vlib.Driver):
         init = ref(obs["init"])
         steps = []
         for op, rec in zip(case["ops"], obs["steps"]):
+            if "raised" in rec:
+                break
             a = ref(rec["after"])
             if op[0] in ("mut", "recreate"):
                 steps.append(f"{'Same' if rec['same_arch'] else 'Mut'} {a}")
@@ -394,15 +414,19 @@ class C04(vlib.Driver):
         cur = obs["init"]
         blk = case["block"]
         for oi, (op, rec) in enumerate(zip(case["ops"], obs["steps"])):
-            what = op[1].split(".")[-1] if op[0] == "mut" else op[0]
             where = f"{blk} step {oi} {op}"
+            if "raised" in rec:
+                if rec["raised_in"]:
+                    out.append(Violation("error", f"e2e:error-carrying-weights:{blk}",
+                                         f"{where}: {rec['raised']} raised inside {rec['raised_in']}"))
+                break
             if op[0] in ("mut", "recreate"):
                 for clause, k, detail in self.common_slice_violations(cur, rec["after"]):
-                    out.append(Violation(clause, f"e2e:{clause}:{blk}:{what}:{category(k)}", f"{where}: {detail}"))
+                    out.append(Violation(clause, f"e2e:{clause}:{blk}:{category(k)}", f"{where}: {detail}"))
                     break
                 if rec["same_arch"]:
                     if not rec["params_equal"]:
-                        out.append(Violation("same-arch-params", f"e2e:same-arch-params:{blk}:{what}",
+                        out.append(Violation("same-arch-params", f"e2e:same-arch-params:{blk}",
                                              f"{where}: init_dict unchanged but parameters differ after the operation"))
                     elif not rec["out_equal"]:
                         if not rec["buffers_equal"]:
@@ -410,7 +434,7 @@ class C04(vlib.Driver):
                                                  f"{where}: init_dict and all parameters unchanged, but evaluation-mode outputs differ by {rec['out_maxdiff']}: "
                                                  f"buffers {rec['buffers_changed']} were re-initialised by the re-creation (running statistics lost)"))
                         else:
-                            out.append(Violation("same-arch-output", f"e2e:same-arch-output:{blk}:{what}",
+                            out.append(Violation("same-arch-output", f"e2e:same-arch-output:{blk}",
                                                  f"{where}: init_dict, parameters and buffers unchanged but outputs differ by {rec['out_maxdiff']}"))
             elif op[0] in ("clone", "reinit"):
                 if not rec["params_equal"]:
@@ -441,6 +465,8 @@ class C04(vlib.Driver):
             return self._sig(obs["old"]) != self._sig(obs["new"])
         cur = self._sig(obs["init"])
         for op, rec in zip(case["ops"], obs["steps"]):
+            if "raised" in rec:
+                break
             if op[0] in ("mut", "recreate") and self._sig(rec["after"]) != cur:
                 return True
             cur = self._sig(rec["after"])
@@ -471,6 +497,9 @@ class C04(vlib.Driver):
         labs = ["kind=e2e", f"block={case['block']}"]
         cur = self._sig(obs["init"])
         for op, rec in zip(case["ops"], obs["steps"]):
+            if "raised" in rec:
+                labs.append(f"op=mut:{op[1].split('.')[-1]}:raised-{'while-carrying-weights' if rec['raised_in'] else 'elsewhere(C03)'}")
+                break
             if op[0] == "mut":
                 ch = "arch-changed" if self._sig(rec["after"]) != cur else ("arch-same" if rec["same_arch"] else "arch-same-signature")
                 labs.append(f"op=mut:{op[1].split('.')[-1]}:{ch}")
